@@ -34,6 +34,7 @@ type cliH struct {
 	badFrame []string
 	wmu      sync.Mutex
 	// handshake overrides
+	handshakeRaw  []byte // if set, the Tversion is answered with exactly these bytes
 	forceVersion  string // answer with this version string instead of echoing the client's
 	zeroMeansZero bool   // msize 0 is answered literally (default: 0 = echo the proposal)
 }
@@ -96,6 +97,10 @@ func (h *cliH) reader() {
 			}
 			h.mu.Unlock()
 			if first {
+				if h.handshakeRaw != nil {
+					h.replyRaw(h.handshakeRaw)
+					continue
+				}
 				if tv, ok := fc.Message.(p9p.MessageTversion); ok {
 					ms := h.msize
 					if ms == 0 && !h.zeroMeansZero {
